@@ -15,10 +15,12 @@ import (
 	"strings"
 	"time"
 
+	"seehuhn.de/go/postscript/funit"
 	"seehuhn.de/go/sfnt"
 	"seehuhn.de/go/sfnt/cmap"
 	"seehuhn.de/go/sfnt/glyf"
 	"seehuhn.de/go/sfnt/glyph"
+	"seehuhn.de/go/sfnt/opentype/classdef"
 	"seehuhn.de/go/sfnt/opentype/coverage"
 	"seehuhn.de/go/sfnt/opentype/gtab"
 	"seehuhn.de/go/sfnt/opentype/gtab/builder"
@@ -158,7 +160,104 @@ func showSub(st gtab.Subtable) string {
 		}
 		return "e:" + strings.Join(p, ",")
 	}
+	switch l := st.(type) {
+	case *gtab.Gpos1_1:
+		gl, _ := covOrder(l.Cov)
+		return "f:" + gidsStr(gl, ",") + ":" + showVR(l.Adjust)
+	case *gtab.Gpos1_2:
+		gl, ok := covOrder(l.Cov)
+		if !ok || len(gl) != len(l.Adjust) {
+			return "noncanonical-coverage"
+		}
+		p := make([]string, len(gl))
+		for i, g := range gl {
+			p[i] = fmt.Sprintf("%d>%s", g, showVR(l.Adjust[i]))
+		}
+		return "g:" + strings.Join(p, ",")
+	case gtab.Gpos2_1:
+		keys := make([]glyph.Pair, 0, len(l))
+		for k := range l {
+			keys = append(keys, k)
+		}
+		sort.Slice(keys, func(i, j int) bool {
+			if keys[i].Left != keys[j].Left {
+				return keys[i].Left < keys[j].Left
+			}
+			return keys[i].Right < keys[j].Right
+		})
+		p := make([]string, len(keys))
+		for i, k := range keys {
+			p[i] = fmt.Sprintf("%d+%d>%s", k.Left, k.Right, showPA(l[k]))
+		}
+		return "h:" + strings.Join(p, ",")
+	case *gtab.Gpos2_2:
+		rows := make([]string, len(l.Adjust))
+		for i, row := range l.Adjust {
+			cells := make([]string, len(row))
+			for j, c := range row {
+				cells[j] = showPA(c)
+			}
+			rows[i] = strings.Join(cells, "+")
+		}
+		return "i:" + gidsStr(l.Cov.Glyphs(), ",") + ":" + showClasses(l.Class1) + ":" + showClasses(l.Class2) + ":" + strings.Join(rows, "!")
+	}
 	return fmt.Sprintf("other-%T", st)
+}
+
+func showVR(v *gtab.GposValueRecord) string {
+	if v == nil || (v.XPlacement == 0 && v.YPlacement == 0 && v.XAdvance == 0 && v.YAdvance == 0) {
+		return "_"
+	}
+	return fmt.Sprintf("%d.%d.%d.%d", v.XPlacement, v.YPlacement, v.XAdvance, v.YAdvance)
+}
+
+func showPA(p *gtab.PairAdjust) string {
+	if p == nil {
+		return "nil-pair"
+	}
+	return showVR(p.First) + "&" + showVR(p.Second)
+}
+
+func showClasses(t classdef.Table) string {
+	keys := make([]glyph.ID, 0, len(t))
+	for g := range t {
+		keys = append(keys, g)
+	}
+	sort.Slice(keys, func(i, j int) bool { return keys[i] < keys[j] })
+	p := make([]string, len(keys))
+	for i, g := range keys {
+		p[i] = fmt.Sprintf("%d-%d", g, t[g])
+	}
+	return strings.Join(p, ",")
+}
+
+func readVR(s string) *gtab.GposValueRecord {
+	if s == "_" {
+		return nil
+	}
+	var x, y, dx, dy int
+	if _, err := fmt.Sscanf(s, "%d.%d.%d.%d", &x, &y, &dx, &dy); err != nil {
+		panic("bad value record " + s)
+	}
+	return &gtab.GposValueRecord{XPlacement: funit.Int16(x), YPlacement: funit.Int16(y), XAdvance: funit.Int16(dx), YAdvance: funit.Int16(dy)}
+}
+
+func readPA(s string) *gtab.PairAdjust {
+	i := strings.IndexByte(s, '&')
+	return &gtab.PairAdjust{First: readVR(s[:i]), Second: readVR(s[i+1:])}
+}
+
+func readClasses(s string) classdef.Table {
+	t := classdef.Table{}
+	if s == "" {
+		return t
+	}
+	for _, e := range strings.Split(s, ",") {
+		var g, c int
+		fmt.Sscanf(e, "%d-%d", &g, &c)
+		t[glyph.ID(g)] = uint16(c)
+	}
+	return t
 }
 
 func showLookups(ll gtab.LookupList) string {
@@ -252,6 +351,44 @@ func readSub(s string) gtab.Subtable {
 			}
 		}
 		return &gtab.Gsub4_1{Cov: covOf(gl), Repl: repl}
+	case "f":
+		i := strings.IndexByte(body, ':')
+		return &gtab.Gpos1_1{Cov: covOf(readGids(body[:i], ",")), Adjust: readVR(body[i+1:])}
+	case "g":
+		gl, rhs := readPairs(body)
+		adj := make([]*gtab.GposValueRecord, len(gl))
+		for i, r := range rhs {
+			adj[i] = readVR(r)
+		}
+		return &gtab.Gpos1_2{Cov: covOf(gl), Adjust: adj}
+	case "h":
+		m := gtab.Gpos2_1{}
+		if body != "" {
+			for _, e := range strings.Split(body, ",") {
+				i := strings.IndexByte(e, '>')
+				var l, r int
+				fmt.Sscanf(e[:i], "%d+%d", &l, &r)
+				m[glyph.Pair{Left: glyph.ID(l), Right: glyph.ID(r)}] = readPA(e[i+1:])
+			}
+		}
+		return m
+	case "i":
+		parts := strings.Split(body, ":")
+		set := coverage.Set{}
+		for _, g := range readGids(parts[0], ",") {
+			set[g] = true
+		}
+		var adjust [][]*gtab.PairAdjust
+		if parts[3] != "" {
+			for _, row := range strings.Split(parts[3], "!") {
+				var cells []*gtab.PairAdjust
+				for _, c := range strings.Split(row, "+") {
+					cells = append(cells, readPA(c))
+				}
+				adjust = append(adjust, cells)
+			}
+		}
+		return &gtab.Gpos2_2{Cov: set, Class1: readClasses(parts[1]), Class2: readClasses(parts[2]), Adjust: adjust}
 	}
 	panic("bad subtable " + s)
 }
@@ -280,7 +417,8 @@ var dslErrClasses = []string{
 	"expected identifier", "expected single glyph", "expected at least one glyph", "unknown lookup flag",
 	"invalid glyph id", "consecutive hyphens in glyph list", "invalid range", "hyphenated range not terminated",
 	"rune", "length mismatch", "duplicate mapping", "no substitutions found", "unexpected character",
-	"unterminated string", "unexpected",
+	"unterminated string", "unexpected", "expected integer", "invalid integer", "int16 out of range",
+	"expected glyph pair", "duplicate class",
 }
 
 func dslErrClass(msg string) string {
@@ -352,6 +490,18 @@ func builderGoroutines() int {
 	return n
 }
 
+// dslExplain runs ExplainGsub, or ExplainGpos for `tab=gpos`, on the lookups of the case line.
+func dslExplain(font *sfnt.Font, f Fields) string {
+	ll := readLookups(f["lookups"])
+	defer func() { font.Gsub, font.Gpos = nil, nil }()
+	if f["tab"] == "gpos" {
+		font.Gpos = &gtab.Info{LookupList: ll}
+		return strings.Join(builder.ExplainGpos(font), "\n")
+	}
+	font.Gsub = &gtab.Info{LookupList: ll}
+	return builder.ExplainGsub(font)
+}
+
 func init() {
 	areas["dsl"] = areaDsl
 	ops["dsl.lex"] = func(f Fields) string {
@@ -364,17 +514,13 @@ func init() {
 	}
 	ops["dsl.explain"] = func(f Fields) string {
 		return dslCanonPanic(guard(func() string {
-			font := dslFontOf(f)
-			font.Gsub = &gtab.Info{LookupList: readLookups(f["lookups"])}
-			return hx([]byte(builder.ExplainGsub(font)))
+			return hx([]byte(dslExplain(dslFontOf(f), f)))
 		}))
 	}
 	rt := func(f Fields) string {
 		return dslCanonPanic(guard(func() string {
 			font := dslFontOf(f)
-			font.Gsub = &gtab.Info{LookupList: readLookups(f["lookups"])}
-			txt := builder.ExplainGsub(font)
-			font.Gsub = nil
+			txt := dslExplain(font, f)
 			return dslOutcome(builder.Parse(font, txt))
 		}))
 	}
@@ -585,6 +731,108 @@ func genSubtable(c *Ctx, n, t int) gtab.Subtable {
 	return &gtab.Gsub4_1{Cov: covOf(cov), Repl: repl}
 }
 
+func genVR(r *Rng) *gtab.GposValueRecord {
+	if r.Chance(1, 4) {
+		return nil
+	}
+	pick := func() funit.Int16 { return funit.Int16(Pick(r, []int{0, 0, 1, -1, 5, -20, 500, -32768, 32767})) }
+	return &gtab.GposValueRecord{XPlacement: pick(), YPlacement: pick(), XAdvance: pick(), YAdvance: pick()}
+}
+
+func genPA(r *Rng) *gtab.PairAdjust {
+	p := &gtab.PairAdjust{First: genVR(r)}
+	if r.Bool() {
+		p.Second = genVR(r)
+	}
+	return p
+}
+
+// genClasses draws a class table with classes 1..k, all non-empty, over glyphs < n.
+func genClasses(r *Rng, n, k int) classdef.Table {
+	t := classdef.Table{}
+	for c := 1; c <= k; c++ {
+		for tries := 0; tries < 50; tries++ {
+			g := glyph.ID(r.Intn(n))
+			if _, used := t[g]; !used {
+				t[g] = uint16(c)
+				break
+			}
+		}
+	}
+	for i := r.Intn(3); i > 0; i-- {
+		g := glyph.ID(r.Intn(n))
+		if _, used := t[g]; !used {
+			t[g] = uint16(r.Range(1, k))
+		}
+	}
+	// make the class numbers contiguous from 1 (a draw may have failed on a tiny font)
+	max := 0
+	for _, c := range t {
+		if int(c) > max {
+			max = int(c)
+		}
+	}
+	for c := 1; c <= max; c++ {
+		found := false
+		for _, v := range t {
+			if int(v) == c {
+				found = true
+			}
+		}
+		if !found {
+			return classdef.Table{glyph.ID(r.Intn(n)): 1}
+		}
+	}
+	return t
+}
+
+// genGposLookup draws a GPOS lookup of type 1 or 2 inside the language's domain.
+func genGposLookup(c *Ctx, n int) *gtab.LookupTable {
+	r := c.Rng
+	t := r.Range(1, 2)
+	l := &gtab.LookupTable{Meta: &gtab.LookupMetaInfo{LookupType: uint16(t), LookupFlags: gtab.LookupFlags(r.Intn(16))}}
+	k := Pick(r, []int{1, 1, 2, 3})
+	c.Stat("rt.subtables", fmt.Sprint(k))
+	for ; k > 0; k-- {
+		cov := genCov(r, n)
+		switch {
+		case t == 1 && r.Bool():
+			c.Stat("rt.form", "gpos1.1")
+			l.Subtables = append(l.Subtables, &gtab.Gpos1_1{Cov: covOf(cov), Adjust: genVR(r)})
+		case t == 1:
+			c.Stat("rt.form", "gpos1.2")
+			adj := make([]*gtab.GposValueRecord, len(cov))
+			for i := range adj {
+				adj[i] = genVR(r)
+			}
+			l.Subtables = append(l.Subtables, &gtab.Gpos1_2{Cov: covOf(cov), Adjust: adj})
+		case r.Bool():
+			c.Stat("rt.form", "gpos2.1")
+			m := gtab.Gpos2_1{}
+			for j := r.Range(1, 5); j > 0; j-- {
+				m[glyph.Pair{Left: glyph.ID(r.Intn(n)), Right: glyph.ID(r.Intn(n))}] = genPA(r)
+			}
+			l.Subtables = append(l.Subtables, m)
+		default:
+			c.Stat("rt.form", "gpos2.2")
+			c1, c2 := genClasses(r, n, r.Range(1, 2)), genClasses(r, n, r.Range(1, 3))
+			adj := make([][]*gtab.PairAdjust, c1.NumClasses())
+			for i := range adj {
+				adj[i] = make([]*gtab.PairAdjust, c2.NumClasses())
+				for j := range adj[i] {
+					adj[i][j] = genPA(r)
+				}
+			}
+			set := coverage.Set{}
+			for _, g := range cov {
+				set[g] = true
+			}
+			l.Subtables = append(l.Subtables, &gtab.Gpos2_2{Cov: set, Class1: c1, Class2: c2, Adjust: adj})
+		}
+	}
+	return l
+}
+
 // inDomain says whether the font is one the notation can name every glyph of: non-empty names
 // are distinct and are identifiers of the language; cmap targets are glyphs of the font.
 func inDomain(d dslFont) bool {
@@ -624,7 +872,7 @@ var dslOtherForms = []string{
 
 var dslFragments = []string{"GSUB1", "GSUB2", "GSUB3", "GSUB4", ":", " ", "\n", "\t", "->", "-", "--", "|", "||", ",", ";", "[", "]",
 	"@", "/", "&", "=", "A", "B", "C", "M", "1", "22", "+3", "-4", "99999", "\"AB\"", "\"A\\\"", "\"abc", "# c\n", "#", "\x00", "$",
-	"\xff", "\xc3", "é", "Ж", " ", " ", "\r", "\v", "-marks", "-ligs", "-lig", "-rtl", "-base", "-bogus", "x", "_", ".", "€",
+	"\xff", "\xc3", "é", "Ж", " ", " ", "\r", "\v", "-marks", "-ligs", "-lig", "-rtl", "-base", "-bogus", "x", "_", ".", "€", "y", "dx", "dy", "x+5", "y-3", "first", "second", "+99999", "-32769", "9223372036854775808",
 	"\"\"", "\"z\"", "A-C", "C-A", "A-A", "1-3", "3 - 1", "-A", "A-", "A--B", "\\", "'", "~", "0", "00", "+", "to", "class", "mark", "base"}
 
 func mutate(r *Rng, s string) string {
@@ -672,7 +920,15 @@ func randText(r *Rng) string {
 }
 
 func hasOtherForm(s string) bool {
-	return strings.Contains(s, "GSUB5") || strings.Contains(s, "GSUB6") || strings.Contains(s, "GPOS")
+	return strings.Contains(s, "GSUB5") || strings.Contains(s, "GSUB6") || strings.Contains(s, "GPOS3") || strings.Contains(s, "GPOS4")
+}
+
+var dslGposSnippets = []string{
+	"GPOS1: -marks [M] -> y+500", "GPOS1: A -> x+1 y-2 dx+3, B -> _ ||\n\t[C D] -> dx-5 dy+2",
+	"GPOS2: A B -> x+1 & dx-2, A C -> _ & y+1", "GPOS1: A -> x1 x+99999 y-32768, B -> dx 5",
+	"GPOS2:\n\t/A B/\n\tfirst A, B;\n\tsecond C;\n\t_, x+1;\n\tdx+2, _ & y+1;\n\t_, _;",
+	"GPOS2: /A-C/ first A, , B; second C D, E;\n _, x+1, y+2; dx+2, _ & y+1, _; _, _, _; x+1,x+2,x+3; || A B -> _",
+	"GPOS1: [A-C] -> _ || [D] -> x+99999999999999999999", "GPOS2: A -> x+1",
 }
 
 var simpleFont = dslFont{n: 30, names: append([]string{".notdef", "space", "x"}, strings.Split("A B C D E F G H I J K L M N O P Q R S T U V W X Y Z", " ")...)[:29:29],
@@ -739,18 +995,19 @@ func areaDsl(c *Ctx) {
 				d = genFont(c)
 			}
 			var t string
+			pool := append(append([]string{}, dslSnippets...), dslGposSnippets...)
 			switch r.Intn(3) {
 			case 0:
-				t = Pick(r, dslSnippets)
+				t = Pick(r, pool)
 				if r.Bool() {
-					t += "\n" + Pick(r, dslSnippets)
+					t += "\n" + Pick(r, pool)
 				}
 				c.Stat("parse.text", "valid")
 			case 1:
-				t = mutate(r, Pick(r, dslSnippets))
+				t = mutate(r, Pick(r, pool))
 				c.Stat("parse.text", "mutated")
 			default:
-				t = "GSUB" + fmt.Sprint(r.Range(1, 4)) + ": " + randText(r)
+				t = Pick(r, []string{"GSUB1", "GSUB2", "GSUB3", "GSUB4", "GPOS1", "GPOS2"}) + ": " + randText(r)
 				c.Stat("parse.text", "fragments")
 			}
 			if hasOtherForm(t) {
@@ -771,10 +1028,18 @@ func areaDsl(c *Ctx) {
 			}
 			c.Stat("rt.font", "in domain")
 			var ll gtab.LookupList
-			for k := r.Range(1, 3); k > 0; k-- {
-				ll = append(ll, genLookup(c, d.n))
+			tab := "gsub"
+			if r.Chance(2, 5) {
+				tab = "gpos"
 			}
-			args := d.args() + " lookups=" + showLookups(ll)
+			for k := r.Range(1, 3); k > 0; k-- {
+				if tab == "gpos" {
+					ll = append(ll, genGposLookup(c, d.n))
+				} else {
+					ll = append(ll, genLookup(c, d.n))
+				}
+			}
+			args := d.args() + " tab=" + tab + " lookups=" + showLookups(ll)
 			c.Case(Verdict, "dsl.explain", args, true)
 			c.Case(Verdict, "dsl.modelrt", args, true)
 			out := c.Case(Direct, "dsl.roundtrip", args, true)
